@@ -18,7 +18,9 @@ CFG = {
             "emoji x every cursor position x Alt+b, Alt+f, Ctrl+w, Ctrl+Left, Ctrl+Right, Alt+d; random sequences up to 200 ops. Kinds tfc/tic "
             "(19 code points: combining mark, ZWJ, VS16, regional indicators, emoji, Hangul jamo, skin tone, tab): every start of length <= 4 x "
             "every cursor position x 18 inserts typed one code point at a time and pasted (InsertStringAtCursor, one key event, paste bracket), "
-            "then letter, BackSpace, Left, Delete, Draw; deletions that bring two parts of a grapheme together followed by cursor probes; random sequences over all code points. Distinct by the whole sequence.",
+            "then letter, BackSpace, Left, Delete, Draw; deletions that bring two parts of a grapheme together followed by cursor probes; random sequences over all code points. "
+            "Round 3, the scrolled case of textinput.Draw: 6 texts (narrow, wide, mixed) x every window width 1..12 (thorough ..16) x 4 prompts (width 0, 1, 2 as one wide grapheme, 2 as two narrow) x the cursor "
+            "walking from the end to the beginning and back with a Draw after every step, Home/End, a one-column-wider window, every fifth case in password mode (288 cases; row and cursor column compared). Distinct by the whole sequence.",
     "trusted_base": [
         "Key.Matches / Key.String (C09's subject) are evaluated by the real code in the harness; the model receives the 8 binding verdicts "
         "of HandleEvent in source order, resp. the msg.String() text",
@@ -44,10 +46,15 @@ CFG = {
                   "each at the column = display width before it, no truncator); for every window width: textinput_draw_offset_bounds (0 <= offset <= cursor after Draw) and textinput_cells_in_window (no cell outside the window). Gen theorems: case labels of Update's switch, default-arm guards, "
                   "scroll-loop condition, scrolloff, the if-chain of HandleEvent, and (facts_*_bodies) for every modelled function all writes to "
                   "receiver fields, receiver calls, returns and loops in full, extracted from the source on every run, equal what the models "
-                  "transcribe. F46, F47, F117 (round 1) and F217, F317, F417 (round 2) were real violations, fixed in /repo (one commit each).",
+                  "transcribe. F46, F47, F117 (round 1) and F217, F317, F417 (round 2) were real violations, fixed in /repo (one commit each). "
+                  "Round 3: textinput_models_agree (+_inv): the model over merging graphemes run with the never-merging segmentation on single-atom content IS the merge-free model, "
+                  "event by event, panic for panic - the two textinput models are one; the scrolled case of textinput.Draw for EVERY window width: textinput_cells_scrolled (the cells are the "
+                  "prompt then the window of the text from the final offset on, left truncator iff offset > 0, right truncator at the grapheme that reaches the edge and nothing after it, mask in "
+                  "password mode) and textinput_cursor_scrolled (cursor column in closed form); textinput_cursor_at_grapheme_partial says exactly when the drawn cursor is at its grapheme, "
+                  "Witness.F517 that it is not always (narrow windows: drawn at the prompt's end) - observed on the real code, outside the property text ('while the text fits'), recorded not repaired.",
     "level_note": "Validated by correspondence only: that Key.String()/Key.Matches produce the strings/verdicts the tables list (C09's subject); that "
-                  "uniseg is a Segmentation and equals the driver's clUax (compared on every op); textinput's cells and cursor column when the line "
-                  "does NOT fit (scrolled view, truncators: modelled in drawCells/cursorLoop and compared cell by cell, no theorem). Modelled, not "
+                  "uniseg is a Segmentation and equals the driver's clUax (compared on every op); which offset Draw settles on when the line does NOT fit (the scroll policy: modelled in draw/scrollLoop, compared cell by cell; theorems say what is "
+                  "shown for the offset it settles on and bound it by 0 <= offset <= cursor, not which offset it is). Modelled, not "
                   "verified: nothing in the editing functions; guards outside loops are tied by correspondence, not by Gen facts. Not modelled: "
                   "direct assignment to the public field TextField.Value, HideCursor, a tab typed into textinput (vaxis.Characters turns it into 8 "
                   "blanks before the editor sees it).",
